@@ -47,11 +47,13 @@ def rank_probabilities(teams, beta, X):
     return out
 
 
-def draw(teams, beta, X):
+def draw(teams, beta, X, details=None):
     """average over ordered pairs (plain sum for two teams) of P(|difference| < margin)"""
     n = len(teams)
     theta, var = aggregates(teams)
     m = margin(teams, beta, X)
+    if details is not None:
+        details.update(m=m, s={}, d={})
     tot = None
     for a in range(n):
         for b in range(n):
@@ -59,6 +61,9 @@ def draw(teams, beta, X):
                 continue
             s = X.sqrt(n * beta * beta + var[a] + var[b])
             d = theta[a] - theta[b]
+            if details is not None:
+                details["s"][(a, b)] = s
+                details["d"][(a, b)] = d
             band = X.Phi((m - d) / s) - X.Phi((-m - d) / s)
             tot = band if tot is None else tot + band
     return tot / (1 if n == 2 else n * (n - 1))
